@@ -103,3 +103,100 @@ Proof. destruct f, k; vm_compute; intros Hr; try discriminate; split; intros H; 
 
 Lemma code_of_inj k1 k2 : code_of k1 = code_of k2 -> k1 = k2.
 Proof. destruct k1, k2; vm_compute; intros H; try reflexivity; discriminate. Qed.
+
+(* ---------- CopyObject field forwarding ---------- *)
+Lemma existsb_false_all {A} (f : A -> bool) l : existsb f l = false -> forall x, In x l -> f x = false.
+Proof.
+  induction l as [|y r IH]; cbn; intros H x Hin; [destruct Hin|].
+  apply Bool.orb_false_iff in H. destruct H as [H1 H2]. destruct Hin as [<-|Hin]; auto.
+Qed.
+Lemma server_meta_field w i : In i meta_ids -> meta_field (co_meta (server_opts w)) i = w_hdr w i.
+Proof.
+  intros Hin. unfold server_opts. cbn [co_meta].
+  destruct (existsb (fun i0 => negb (is_vnone (w_hdr w i0))) meta_ids) eqn:E; [reflexivity|].
+  cbn [meta_field]. pose proof (existsb_false_all _ _ E i Hin) as H. cbn in H.
+  destruct (w_hdr w i); cbn in H; try discriminate. reflexivity.
+Qed.
+Lemma canon_opt_val a i : i <> 5 -> canon (opt_val a i) = opt_val a i.
+Proof.
+  intros Hi. unfold opt_val. destruct (N.testbit (xa_omask a) i); [|reflexivity].
+  assert (E : (i =? 5) = false) by (apply N.eqb_neq; exact Hi). rewrite E. reflexivity.
+Qed.
+Lemma canon_src_val a i : canon (src_val a i) = src_val a i.
+Proof. unfold src_val. destruct (N.testbit (xa_smask a) i); reflexivity. Qed.
+
+Lemma copy_field_forwarding a i : In i field_ids -> client_field a i = canon (direct_field a i).
+Proof.
+  intros Hin. unfold client_field, direct_field, storage_copy_field.
+  change (co_rm (server_opts (client_wire a))) with (xa_rm a).
+  change (co_rm (direct_opts a)) with (xa_rm a).
+  destruct (xa_rm a) eqn:Erm.
+  - destruct (i =? 0) eqn:E0.
+    + apply N.eqb_eq in E0. subst i. unfold server_opts, client_wire. cbn [co_ct w_replace w_hdr direct_opts].
+      rewrite Erm. cbn. symmetry. apply canon_opt_val. discriminate.
+    + assert (Hm : In i meta_ids).
+      { apply N.eqb_neq in E0. unfold field_ids in Hin. unfold meta_ids. cbn in Hin |- *. intuition congruence. }
+      rewrite (server_meta_field _ _ Hm). unfold client_wire. cbn [w_hdr]. rewrite Erm, E0.
+      unfold direct_opts. cbn [co_meta]. destruct (xa_metanil a); reflexivity.
+  - destruct (i =? 6) eqn:E6.
+    + rewrite (server_meta_field _ 6) by (cbn; tauto). unfold client_wire. cbn [w_hdr]. rewrite Erm. cbn [N.eqb Pos.eqb andb].
+      unfold direct_opts. cbn [co_meta]. destruct (xa_metanil a); cbn; [reflexivity|].
+      symmetry. apply canon_opt_val. discriminate.
+    + symmetry. apply canon_src_val.
+Qed.
+
+Lemma direct_alt_only_expires a i :
+  direct_field a i = VAltRaw ->
+  i = 5 /\ xa_rm a = true /\ xa_metanil a = false /\ N.testbit (xa_omask a) 5 = true /\ N.testbit (xa_omask a) 8 = true.
+Proof.
+  unfold direct_field, storage_copy_field, direct_opts. cbn [co_rm co_ct co_meta].
+  assert (Hopt : forall j, opt_val a j = VAltRaw -> j = 5 /\ N.testbit (xa_omask a) 5 = true /\ N.testbit (xa_omask a) 8 = true).
+  { intros j. unfold opt_val. destruct (N.testbit (xa_omask a) j) eqn:Ej; [|discriminate].
+    destruct (j =? 5) eqn:E5; cbn; [|discriminate]. apply N.eqb_eq in E5. subst j.
+    destruct (N.testbit (xa_omask a) 8); [auto|discriminate]. }
+  destruct (xa_rm a).
+  - destruct (i =? 0) eqn:E0.
+    + apply N.eqb_eq in E0. subst i. intros H. destruct (Hopt 0 H) as [H0 _]. discriminate.
+    + destruct (xa_metanil a); cbn [meta_field]; [discriminate|]. intros H. destruct (Hopt i H) as [-> [H5 H8]]. auto.
+  - destruct (i =? 6).
+    + destruct (xa_metanil a); cbn [meta_field]; [discriminate|]. intros H. destruct (Hopt 6 H) as [H6 _]. discriminate.
+    + unfold src_val. destruct (N.testbit (xa_smask a) i); discriminate.
+Qed.
+
+Lemma copy_tags_forwarding a :
+  client_tags a = stag a /\
+  direct_tags a = (if xa_rt a then (if xa_otags a then VOpt else VNone) else stag a).
+Proof. split; reflexivity. Qed.
+
+(* ---------- CompleteMultipartUpload manifests ---------- *)
+Fixpoint seqN (s : N) (k : nat) : list N := match k with O => [] | S k' => s :: seqN (s + 1) k' end.
+
+Lemma validate_ok n : forall man prev c, c <= prev -> prev <= n ->
+  (validate n prev man c = MROk <->
+   c = prev /\ map fst man = seqN (prev + 1) (N.to_nat (n - prev)) /\ Forall (fun pe => snd pe <> 1) man).
+Proof.
+  induction man as [|[p e] r IH]; intros prev c Hc Hp.
+  - cbn [validate map]. destruct (c =? n) eqn:E.
+    + apply N.eqb_eq in E. split; [intros _|reflexivity]. assert (prev = n) by lia. subst.
+      replace (n - n) with 0 by lia. cbn. repeat split; auto.
+    + apply N.eqb_neq in E. split; [discriminate|]. intros [-> [Hs _]].
+      destruct (N.to_nat (n - prev)) eqn:En; cbn in Hs; [|discriminate]. exfalso. lia.
+  - cbn [validate map fst]. destruct (p <=? prev) eqn:E1.
+    { split; [discriminate|]. intros [_ [Hs _]]. destruct (N.to_nat (n - prev)); cbn in Hs; [discriminate|].
+      inversion Hs. lia. }
+    destruct ((1 <=? p) && (p <=? n)) eqn:E2; cbn [negb].
+    2:{ split; [discriminate|]. intros [_ [Hs _]]. destruct (N.to_nat (n - prev)) eqn:En; cbn in Hs; [discriminate|].
+        inversion Hs. lia. }
+    destruct (e =? 1) eqn:E3.
+    { split; [discriminate|]. intros [_ [_ Hf]]. inversion Hf. cbn in *. apply N.eqb_eq in E3. contradiction. }
+    apply N.eqb_neq in E3.
+    assert (Hp1 : prev < p) by lia. assert (Hp2 : p <= n) by lia.
+    rewrite (IH p (c + 1)) by lia. split.
+    + intros [Hcp [Hs Hf]]. assert (c = prev) by lia. subst c. assert (p = prev + 1) by lia. subst p.
+      split; [reflexivity|]. split; [|constructor; auto].
+      replace (N.to_nat (n - prev)) with (S (N.to_nat (n - (prev + 1)))) by lia. cbn [seqN]. now rewrite Hs.
+    + intros [-> [Hs Hf]]. destruct (N.to_nat (n - prev)) eqn:En; cbn [seqN] in Hs; [discriminate|].
+      inversion Hs. subst p. split; [reflexivity|]. split.
+      * replace (N.to_nat (n - (prev + 1))) with n0 by lia. assumption.
+      * inversion Hf. assumption.
+Qed.
